@@ -43,28 +43,39 @@ def spec_scan(ops, impl):
         rep = impl[i]
         if f[0] == "case":
             spec = {}
-        elif f[0] == "act" and f[1] == "w":
+        elif f[0] == "act" and f[1] == "w" and spec is not None:
             S.apply_items(spec, f[2])
+        elif f[0] == "plant" and f[2] == "trunc":
+            spec = None      # the file was cut by hand: the next load defines the expected state
+        elif f[0] == "act" and f[1] == "load" and spec is None:
+            got = rep.split(" ")[1] if " " in rep else "-"
+            spec = {}
+            if got not in ("-", "?"):
+                for kv in got.split(","):
+                    k, v = kv.split("=")
+                    spec[int(k)] = v
         elif f[0] == "act" and f[1] == "load":
             got = rep.split(" ")[1] if " " in rep else "?"
             if got != S.fmt_state(spec):
-                bad.append((i, "load after compaction returned %s, the records written are %s" % (got, S.fmt_state(spec))))
+                bad.append((i, "load after compaction returned %s, the records written are %s" % (got, S.fmt_state(spec)), "state"))
         elif f[0] == "img":
             r = S.parse_img_reply(rep)
             want = S.fmt_state(spec)
             after = dict(spec)
             after[9000] = "77"
             if r.get("C") != want:
-                bad.append((i, "crash image %s inside compaction loads %s, expected %s" % (" ".join(f[1:]), r.get("C"), want)))
+                bad.append((i, "crash image %s inside compaction loads %s, expected %s" % (" ".join(f[1:]), r.get("C"), want), "state"))
             elif "A" in r and r["A"] != S.fmt_state(after):
                 bad.append((i, "append after recovery from crash image %s: reload gives %s, expected %s"
-                            % (" ".join(f[1:]), r.get("A"), S.fmt_state(after))))
+                            % (" ".join(f[1:]), r.get("A"), S.fmt_state(after)), "state"))
     return bad
 
 
+CLASSES = {}   # every C03 finding is about the same clause: the live set changed
+
+
 def spec_violated(rep):
-    bad = spec_scan(rep["ops"], rep["impl"])
-    return bad[0][1] if bad else None
+    return S.first_relevant(rep, spec_scan, K.known_ids("C03"), CLASSES)
 
 
 def run(ctx):
@@ -90,9 +101,9 @@ def run(ctx):
     # Spec oracle over every implementation reply (independent of the model)
     bad = spec_scan(c.ops, c.impl) if not c.err else []
     mism = set(c.mismatch)
-    unflagged = [(i, why) for i, why in bad if i not in mism and not (i < len(c.flags) and c.flags[i])]
+    unflagged = [h for h in S.relevant_hits(bad, c.flags, K.known_ids("C03"), CLASSES, -1) if h[0] not in mism]
     if unflagged:
-        i, why = unflagged[0]
+        i, why, _ = unflagged[0]
         rep = K.case_replay(c, K.case_of(c, i), upto=i)
         rep.update({"correspondence": "C03", "oracle": "spec_scan", "violations": len(unflagged)})
         ctx.violation("implementation violates the property (not predicted by the model): " + why, rep, tag="spec")
